@@ -89,7 +89,7 @@ class Session:
     """one symbolic execution of one harness function + its queries"""
 
     def __init__(self, name, harness, args=(), encode=("watchdog",), use_solver=True, expected_exceptions=(),
-                 setup=None, query_timeout_s=600, jobs=4, cross_check=False):
+                 setup=None, query_timeout_s=600, jobs=4, cross_check=False, native_ctx=None):
         self.name = name
         self.harness = harness
         self.args = tuple(args)
@@ -103,6 +103,7 @@ class Session:
         self.query_timeout_s = query_timeout_s
         self.jobs = jobs
         self.cross_check = cross_check
+        self.native_ctx = native_ctx
         self.finals = []
         self.samples = []
         self.cross = {"agree": 0, "disagree": 0, "cvc5_unknown": 0}
@@ -196,6 +197,10 @@ class Session:
                 exc_of[lab] = exc
             elif st.status == "parked":
                 raise Inconclusive(f"{self.name}: state parked in sequential run")
+        for g, what, where in getattr(vm, "blocked", []):
+            add(f"check:blocks forever: {what}", g, "check")
+        for g, what, where in getattr(vm, "prim_violations", []):
+            add(f"check:{what}", g, "check")
         bylabel = {}
         for g, label, where in vm.obligations:
             bylabel.setdefault(label, []).append(g)
@@ -242,8 +247,11 @@ class Session:
         """run the same harness natively with the inputs of a solver model; returns failed labels"""
         api.native_begin(replay)
         err = None
+        import contextlib
+        ctx = self.native_ctx() if self.native_ctx else contextlib.nullcontext()
         try:
-            self.harness(*self.args)
+            with ctx:
+                self.harness(*self.args)
         except api.AssumptionFailed as e:
             return {"failed": [], "error": f"assumption failed: {e}", "reached": []}
         except self.expected_exceptions:
@@ -310,7 +318,11 @@ def run_session_spec(spec):
         sess = Session(spec["name"], harness, spec.get("args", ()), encode=spec.get("encode", ("watchdog",)),
                        use_solver=spec.get("use_solver", True), expected_exceptions=expected, setup=setup,
                        query_timeout_s=spec.get("query_timeout_s", 600), jobs=spec.get("jobs", 4),
-                       cross_check=spec.get("cross_check", False))
+                       cross_check=spec.get("cross_check", False),
+                       native_ctx=getattr(mod, spec["native_ctx"]) if spec.get("native_ctx") else None)
+        if spec.get("int_union_limit"):
+            from . import values as _v
+            _v.LIMITS["int_union"] = spec["int_union_limit"]
         if spec.get("loop_bound"):
             sess.vm.loop_bound = spec["loop_bound"]
         sess.build()
